@@ -920,7 +920,7 @@ Section Full.
     destruct w as [l | x y | id ps rr ls b env].
     - apply vrelW_lit_inv in Hv. subst v.
       destruct p; try discriminate Ha; simpl in Hs; try discriminate; inversion Hs; subst; simpl;
-        eexists; split; try reflexivity; try (destruct l as [z|[|]| | | |]; constructor).
+        eexists; split; try reflexivity; try (destruct l as [z|[|]| | | | |o|nd]; constructor).
     - destruct (vrelW_pair_inv _ _ _ _ Hv) as (a & vx & vy & -> & Hn & H1 & H2).
       destruct p; try discriminate Ha; simpl in Hs; try discriminate; inversion Hs; subst; simpl; rewrite ?Hn;
         eexists; split; try reflexivity; auto; constructor.
@@ -939,8 +939,8 @@ Section Full.
   Proof.
     intros p W v1 v2 w1 w2 r stk0 HI Ha Hp H1 H2 Hs. pose proof HI as (HB & _).
     destruct p; try discriminate Ha; try discriminate Hp.
-    all: try (destruct w1 as [[a| | | | |] | |]; simpl in Hs; try discriminate;
-              destruct w2 as [[b| | | | |] | |]; simpl in Hs; try discriminate;
+    all: try (destruct w1 as [[a| | | | | | |] | |]; simpl in Hs; try discriminate;
+              destruct w2 as [[b| | | | | | |] | |]; simpl in Hs; try discriminate;
               apply vrelW_lit_inv in H1; apply vrelW_lit_inv in H2; subst; inversion Hs; subst; simpl;
               eexists; exists W; split; [apply wext_refl; exact HB|]; split; [exact HI|]; split; [reflexivity|]; split; [reflexivity|constructor]).
     simpl in Hs. inversion Hs; subst. simpl.
@@ -957,7 +957,7 @@ Section Full.
     (w = SLit (LBool false) /\ v = VLit (LBool false)) \/ (w <> SLit (LBool false) /\ v <> VLit (LBool false)).
   Proof.
     intros W v w H. destruct H as [l | a vx vy x y Hn Hnb H1 H2 | ].
-    - destruct l as [z|[|]| | | |]; try (right; split; congruence). left; auto.
+    - destruct l as [z|[|]| | | | |o|nd]; try (right; split; congruence). left; auto.
     - right; split; congruence.
     - right; split; congruence.
   Qed.
@@ -1325,7 +1325,7 @@ Section Full.
     destruct e as [l | x o | x o e1 | t p e2 | es | id ps r ls sv fv b | g args | p args]; try discriminate Hp.
     - (* Lit *)
       rewrite eval_Lit in He. inversion He; subst. split; auto.
-      exists W, (VLit l). split; [apply wext_refl; auto|]. split; auto. split; auto. split; [constructor|].
+      exists W, (VLit (lit_value l)). split; [apply wext_refl; auto|]. split; auto. split; auto. split; [constructor|].
       simpl generate in *. rewrite HWh. eapply leafH; eauto. eapply step_push; eauto.
     - (* Ref *)
       destruct o as [|m].
@@ -1411,7 +1411,7 @@ Section Full.
         * intros v0 h0. rewrite (fallH_eq s s2 v0 pre _ (ct ++ IJumpUnless (S (length cp)) :: cp ++ IJump (length cf) :: cf) cf h0); auto;
             [apply reaches_refl | solve_len].
       + assert (Hep : eval f p env st1 = SVal v st').
-        { destruct vt as [[z|[|]| | | |] | |]; try exact He; congruence. }
+        { destruct vt as [[z|[|]| | | | |o|nd] | |]; try exact He; congruence. }
         pose proof (step_jump_unless_true s1 _ _ _ v1 (stk s) Hat2 eq_refl Hv) as Hstep.
         set (s2 := upd s1 (stk s) (S (ip s1)) (heap s1)) in *.
         assert (Hat3 : at_code s2 (pre ++ ct ++ [IJumpUnless (S (length cp))]) cp ([IJump (length cf)] ++ cf ++ post)).
